@@ -59,7 +59,8 @@ func prepassCorrespondence(res *Result, drv *DriverPool, texts []string) {
 var wrapPieces = []string{"<mj-text", "<MJ-Text", "<mj-text>", "<mj-text a=\"x>y\" b='/>'>", "<mj-text />", "<mj-text/>", "<mj-textarea>", "<mj-text-x", ">", "/>", " />", "\n/>", "/ >",
 	"</mj-text", "</mj-text>", "</MJ-TEXT \n>", "</mj-text\n\n\t>", "</mj-text x>", "</mj-tex", "<br/>", "<br />", "<BR\n/>", "<br   />", "<br\n  \n/>", "<linK/>", "<ſource src=\"a\"/>", "<tracK\n/>",
 	"<img a='>'/>", "<img src=\"i.png\"\n alt=\"a\"/>", "<hr", "<wbr\t/>", "<col>", "<colx y/>", "<b>", "</b>", "<input disabled/>", "<meta/><link/>", "<![CDATA[", "]]>", " <![CDATA[x]]>", "\n", "\r\n", " ", "\t", "\"", "'", "a", "text",
-	"&amp;", "&nbsp;", "&", "/", "<", "\xff", "\xe2\x84", "<!-- c -->", "<!--", "-->", "<!-- 5\" & -->", "<![CDATA[ \"a & b\" &copy; ]]>", "&copy;", "&#160;", " a=\"x&y\"", " b='&copy;&z;'", "<mj-raw><br/></mj-raw>", "<mj-button href=\"u\">go</mj-button\n>"}
+	"&amp;", "&nbsp;", "&", "/", "<", "\xff", "\xe2\x84", "<!-- c -->", "<!--", "-->", "<!-- 5\" & -->", "<![CDATA[ \"a & b\" &copy; ]]>", "&copy;", "&#160;", " a=\"x&y\"", " b='&copy;&z;'", "<mj-raw><br/></mj-raw>", "<mj-button href=\"u\">go</mj-button\n>",
+	"<![CDATA[a[b]]]>", "<![CDATA[x]]]]>", "]]]>", "<!-- c --->", "<!-- d ---->", "--->", "<![CDATA[]]>", "<!---->"}
 
 func wrapTexts(seed int64, n int) []string {
 	var out []string
@@ -72,7 +73,8 @@ func wrapTexts(seed int64, n int) []string {
 	// material must find the later occurrences
 	for _, e := range []string{"&copy;", "&reg;", "&trade;", "&nbsp;", "&#xA0;", "&#160;", "&ndash;", "&mdash;", "&hellip;"} {
 		out = append(out, "<!-- "+e+" 2023 --> x "+e+" y", "<![CDATA["+e+"]]>"+e, e+"<!-- "+e+" -->"+e+" "+e, "<mj-text><![CDATA[write "+e+"]]></mj-text><mj-text>"+e+"</mj-text>",
-			"<!-- "+e+" --><a t=\""+e+"\">"+e+"</a>", "<![CDATA["+e+"]]><!-- "+e+" -->"+e+"<![CDATA["+e+"]]>"+e)
+			"<!-- "+e+" --><a t=\""+e+"\">"+e+"</a>", "<![CDATA["+e+"]]><!-- "+e+" -->"+e+"<![CDATA["+e+"]]>"+e,
+			"<![CDATA[a[0]]]>"+e+" <a t=\"x&y "+e+"\">", "<!-- "+e+" --->"+e+" <a t=\"x&y\">", "<![CDATA[]]]]>"+e)
 	}
 	for i := 0; i < n; i++ {
 		r := NewRng(seed, fmt.Sprintf("wraptexts/%d", i))
